@@ -24,9 +24,34 @@ func (i *interpreter) timeNow(fn *ssa.Function) value {
 // model timers (time.AfterFunc): they fire when the harness advances the clock past their deadline
 type modelTimer struct {
 	deadline int64
-	fn       value
+	fn       value    // time.AfterFunc: run in a new goroutine
+	ch       *channel // time.NewTimer / time.After: receives the time (capacity 1)
 	stopped  bool
 	fired    bool
+}
+
+// nextTimer: the pending timer with the earliest deadline.
+func (i *interpreter) nextTimer() *modelTimer {
+	var best *modelTimer
+	for _, t := range i.timers {
+		if !t.stopped && !t.fired && (best == nil || t.deadline < best.deadline) {
+			best = t
+		}
+	}
+	return best
+}
+
+// passTime: nothing can run but a timer is pending: time passes until the earliest one fires.
+func (i *interpreter) passTime() bool {
+	t := i.nextTimer()
+	if t == nil {
+		return false
+	}
+	if d := t.deadline - i.nowNanos(); d > 0 {
+		i.clockBase += d
+	}
+	i.fireTimers()
+	return true
 }
 
 func (i *interpreter) nowNanos() int64 { return int64(1_000_000_000) + i.clockBase + int64(i.clockReads) }
@@ -45,6 +70,12 @@ func (i *interpreter) fireTimers() {
 			return
 		}
 		due.fired = true
+		if due.ch != nil {
+			if len(due.ch.buf) < due.ch.cap {
+				due.ch.buf = append(due.ch.buf, structure{uint64(0), i.nowNanos(), (*value)(nil)})
+			}
+			continue
+		}
 		fn := due.fn
 		i.spawnThread(0, &nativeFunc{name: "timer", f: func(i *interpreter, _ []value) value { return call(i, nil, 0, fn, nil) }}, nil, false)
 	}
@@ -67,7 +98,38 @@ func addSyncHooks(h map[string]hookFn) {
 		i.timers = append(i.timers, t)
 		return newHandle(t)
 	}
+	newChanTimer := func(i *interpreter, d value) *value {
+		t := &modelTimer{deadline: i.nowNanos() + i.concreteInt64(d, "timer duration"), ch: i.makeChan(1)}
+		i.timers = append(i.timers, t)
+		cell := value(structure{t.ch, true}) // struct Timer { C <-chan Time; initTimer bool }
+		i.side[&cell] = t
+		return &cell
+	}
+	h["time.NewTimer"] = func(i *interpreter, fr *frame, fn *ssa.Function, args []value) value {
+		return newChanTimer(i, args[0])
+	}
+	h["time.After"] = func(i *interpreter, fr *frame, fn *ssa.Function, args []value) value {
+		return (*newChanTimer(i, args[0])).(structure)[0]
+	}
+	h["(*time.Timer).Reset"] = func(i *interpreter, fr *frame, fn *ssa.Function, args []value) value {
+		var t *modelTimer
+		if p, ok := args[0].(*value); ok && i.side[p] != nil {
+			t = i.side[p].(*modelTimer)
+		} else {
+			t = handleOf(args[0]).(*modelTimer)
+		}
+		was := !t.stopped && !t.fired
+		t.stopped, t.fired = false, false
+		t.deadline = i.nowNanos() + i.concreteInt64(args[1], "timer duration")
+		return was
+	}
 	h["(*time.Timer).Stop"] = func(i *interpreter, fr *frame, fn *ssa.Function, args []value) value {
+		if p, ok := args[0].(*value); ok && i.side[p] != nil {
+			t := i.side[p].(*modelTimer)
+			was := !t.stopped && !t.fired
+			t.stopped = true
+			return was
+		}
 		t := handleOf(args[0]).(*modelTimer)
 		was := !t.stopped && !t.fired
 		t.stopped = true
@@ -112,7 +174,7 @@ func addSyncHooks(h map[string]hookFn) {
 	}
 	h["(*sync.Map).Load"] = func(i *interpreter, fr *frame, fn *ssa.Function, args []value) value {
 		i.yield("sync.Map.Load")
-		v, ok := smap(i, ptr(args[0])).lookup(args[1])
+		v, ok := i.mapLookup(smap(i, ptr(args[0])), args[1])
 		if !ok {
 			return tuple{iface{}, false}
 		}
@@ -120,30 +182,30 @@ func addSyncHooks(h map[string]hookFn) {
 	}
 	h["(*sync.Map).Store"] = func(i *interpreter, fr *frame, fn *ssa.Function, args []value) value {
 		i.yield("sync.Map.Store")
-		smap(i, ptr(args[0])).insert(args[1], args[2])
+		i.mapUpdate(smap(i, ptr(args[0])), args[1], args[2])
 		return nil
 	}
 	h["(*sync.Map).LoadOrStore"] = func(i *interpreter, fr *frame, fn *ssa.Function, args []value) value {
 		i.yield("sync.Map.LoadOrStore")
 		m := smap(i, ptr(args[0]))
-		if v, ok := m.lookup(args[1]); ok {
+		if v, ok := i.mapLookup(m, args[1]); ok {
 			return tuple{v, true}
 		}
-		m.insert(args[1], args[2])
+		i.mapUpdate(m, args[1], args[2])
 		return tuple{args[2], false}
 	}
 	h["(*sync.Map).LoadAndDelete"] = func(i *interpreter, fr *frame, fn *ssa.Function, args []value) value {
 		i.yield("sync.Map.LoadAndDelete")
 		m := smap(i, ptr(args[0]))
-		if v, ok := m.lookup(args[1]); ok {
-			m.delete(args[1])
+		if v, ok := i.mapLookup(m, args[1]); ok {
+			i.mapDelete(m, args[1])
 			return tuple{v, true}
 		}
 		return tuple{iface{}, false}
 	}
 	h["(*sync.Map).Delete"] = func(i *interpreter, fr *frame, fn *ssa.Function, args []value) value {
 		i.yield("sync.Map.Delete")
-		smap(i, ptr(args[0])).delete(args[1])
+		i.mapDelete(smap(i, ptr(args[0])), args[1])
 		return nil
 	}
 	h["(*sync.Map).Range"] = func(i *interpreter, fr *frame, fn *ssa.Function, args []value) value {
@@ -213,6 +275,53 @@ func addSyncHooks(h map[string]hookFn) {
 	h["(*sync.WaitGroup).Wait"] = func(i *interpreter, fr *frame, fn *ssa.Function, args []value) value {
 		s := wg(i, ptr(args[0]))
 		i.block(func() bool { return s.n == 0 }, "WaitGroup.Wait")
+		return nil
+	}
+
+	// sync.Cond: a queue of waiters in the side table; Wait releases c.L, parks until signalled and
+	// re-acquires c.L (no spurious wake-ups, as in the runtime)
+	type condWaiter struct{ woken bool }
+	type condState struct{ q []*condWaiter }
+	cond := func(i *interpreter, p *value) *condState {
+		if s, ok := i.side[p]; ok {
+			return s.(*condState)
+		}
+		s := &condState{}
+		i.side[p] = s
+		return s
+	}
+	condL := func(p *value) iface {
+		st := (*p).(structure)
+		return st[1].(iface) // struct Cond { noCopy; L Locker; notify; checker }
+	}
+	h["(*sync.Cond).Wait"] = func(i *interpreter, fr *frame, fn *ssa.Function, args []value) value {
+		p := ptr(args[0])
+		cs := cond(i, p)
+		w := &condWaiter{}
+		cs.q = append(cs.q, w)
+		if _, ok := i.callMethod(condL(p), "Unlock"); !ok {
+			panic(unsupported{"sync.Cond.Wait: locker without Unlock"})
+		}
+		i.block(func() bool { return w.woken }, "Cond.Wait")
+		i.callMethod(condL(p), "Lock")
+		return nil
+	}
+	h["(*sync.Cond).Signal"] = func(i *interpreter, fr *frame, fn *ssa.Function, args []value) value {
+		cs := cond(i, ptr(args[0]))
+		i.yield("Cond.Signal")
+		if len(cs.q) > 0 {
+			cs.q[0].woken = true
+			cs.q = cs.q[1:]
+		}
+		return nil
+	}
+	h["(*sync.Cond).Broadcast"] = func(i *interpreter, fr *frame, fn *ssa.Function, args []value) value {
+		cs := cond(i, ptr(args[0]))
+		i.yield("Cond.Broadcast")
+		for _, w := range cs.q {
+			w.woken = true
+		}
+		cs.q = nil
 		return nil
 	}
 
